@@ -43,3 +43,48 @@ theorem setup_of_segments (h len m : Nat) (T : Nat → List Lbl × List Nat × N
   exact hfin
 
 end Qrl.BdsLabel
+
+namespace Qrl.BdsLabel
+open Qrl.Bds
+
+/-- two consecutive checked runs make one -/
+theorem runSeg_comp (h : Nat) : ∀ (a b i : Nat) (s s' s'' : St Lbl), runSeg h a i s = (s', true) → runSeg h b (i + a) s' = (s'', true) →
+    runSeg h (a + b) i s = (s'', true)
+  | 0, b, i, s, s', s'', h1, h2 => by
+    simp only [runSeg, Prod.mk.injEq, and_true] at h1
+    subst h1
+    simpa using h2
+  | a+1, b, i, s, s', s'', h1, h2 => by
+    have e : a + 1 + b = (a + b) + 1 := by omega
+    rw [e]
+    simp only [runSeg, Prod.mk.injEq, Bool.and_eq_true, beq_iff_eq] at h1 ⊢
+    obtain ⟨h11, h12, h13⟩ := h1
+    have e2 : i + (a + 1) = (i + 1) + a := by omega
+    rw [e2] at h2
+    have ih := runSeg_comp h a b (i+1) (step ops h s i) s' s'' (Prod.ext h11 h13) h2
+    rw [ih]
+    exact ⟨rfl, h12, rfl⟩
+
+/-- the whole life in one checked run -/
+theorem traversal_of_run (h n : Nat) (S0 Sn : St Lbl) (hn : n + 1 = 2 ^ h) (hsetup : treeHashSetup ops h = (S0, .nd h 0))
+    (hrun : runSeg h n 0 S0 = (Sn, true)) (hlast : Sn.auth = trueAuth h n) : TraversalCorrect h := by
+  obtain ⟨e, hall⟩ := runSeg_sound h n 0 S0 Sn hrun
+  refine ⟨by rw [hsetup], fun i hi => ?_⟩
+  rw [hsetup]
+  simp only
+  by_cases hin : i = n
+  · rw [hin, e]; exact hlast
+  · have := hall i (by omega)
+    simpa using this
+
+/-- key generation from a chain of leaf-loop pieces -/
+theorem setup_of_run (h : Nat) (T0 Tm : List Lbl × List Nat × Nat × St Lbl) (h0 : T0 = setupInit h)
+    (hrun : setupLoop ops h (2 ^ h) 0 T0 = Tm) (S0 : St Lbl) (root : Lbl) (hfin : (Tm.2.2.2, Tm.1.getD 0 Lbl.zero) = (S0, root)) :
+    treeHashSetup ops h = (S0, root) := by
+  rw [treeHashSetup_eq, ← h0, hrun]; exact hfin
+
+theorem setupLoop_comp (h : Nat) (a b idx : Nat) (x y w : List Lbl × List Nat × Nat × St Lbl)
+    (h1 : setupLoop ops h a idx x = y) (h2 : setupLoop ops h b (idx + a) y = w) : setupLoop ops h (a + b) idx x = w := by
+  rw [setupLoop_add, h1, h2]
+
+end Qrl.BdsLabel
